@@ -21,8 +21,9 @@ def seStarts (ix : Index) (startCs endCs : List Cls) (inclStart : Bool) : List (
 
 /-- the first end class (in the order of the loop) that has a position strictly between the two
     starts, and its first such position.  The region is `tokens.New(iStartIndex - 1, …)` where
-    `iStartIndex` is what `remove_leading_whitespace_and_comments` returned: right when a
-    non-whitespace token is there, one too small otherwise -/
+    `iStartIndex` is what `remove_leading_whitespace_and_comments` returned (one past the first
+    kept token, or one past the end of the trimmed tokens when nothing is kept: an empty region at
+    the right place since the repair of the helper) -/
 def startingEnding (V : View α) (P : PCls) (f : List α) (ix : Index) (startCs endCs : List Cls)
     (inclStart inclEnd earliest : Bool) : Except PyErr (List (Toi α)) :=
   let endLists := endCs.map fun c => ix.get c.uid
